@@ -43,8 +43,31 @@ def run_case(ctx, case):
 
 def _run_case(ctx, case, op):
     from curtsies.formatstring import FmtStr
+    if op == "sequence":
+        # several slices / indexes of ONE object, one after the other
+        spec = case["spec"]
+        A = obs.spec_cells(spec)
+        f = obs.build(spec)
+        for a, b in case["slices"]:
+            want = A[a:b]
+            try:
+                r = f[a:b]
+            except Exception as e:  # noqa
+                ctx.judge(False, case, mech="C06:slice-sequence", expected=obs.show(want), got=repr(e))
+                return
+            problems, got = obs.result_problems(r, want)
+            if problems:
+                ctx.judge(False, case, mech="C06:slice-sequence", expected=obs.show(want),
+                          got=obs.show(got) if got is not None else None, detail=[[a, b]] + problems)
+                return
+        ctx.judge(True, case, nontrivial=bool(A))
+        return
     if op in ("slice", "index"):
         spec = case["spec"]
+        if case.get("twin_first"):
+            # the same operation first on a value that renders identically but has other run
+            # boundaries: nothing learnt about one may be applied to the other
+            _run_case(ctx, dict(case, spec=case["twin_first"], twin_first=None), op)
         A = obs.spec_cells(spec)
         f = obs.build(spec)
         text = obs.text_of(A)
@@ -228,9 +251,20 @@ def run(ctx):
         run_case(ctx, case)
         ctx.count("joins")
     for _ in range(ctx.share(3000 if quick else 600000)):
-        spec = obs.rand_spec(rng, 6, 5, "abcdefg一\n", palette=pal)
+        spec = obs.rand_spec(rng, 6, 5, rng.choice(["abcdefg一\n", "abé́‍​一"]), palette=pal)
         L = sum(len(t) for t, _ in spec)
         c = lambda: rng.choice([None, rng.randint(-L - 2, L + 2)])
-        run_case(ctx, {"op": "slice", "spec": spec, "start": c(), "stop": c()})
+        case = {"op": "slice", "spec": spec, "start": c(), "stop": c()}
+        tw = obs.twin(spec, rng)
+        if tw is not None and rng.random() < .5:
+            case["twin_first"] = tw
+        run_case(ctx, case)
+        if L and rng.random() < .3:
+            sl = []
+            for _ in range(rng.randint(2, 4)):
+                a = rng.randint(0, L)
+                sl.append([a, rng.randint(a, L + 1)])
+            run_case(ctx, {"op": "sequence", "spec": spec, "slices": sl})
+            ctx.count("slice_sequences")
         run_case(ctx, {"op": "index", "spec": spec, "i": rng.randint(-L - 2, L + 2)})
         ctx.count("random_slices")
